@@ -30,6 +30,10 @@ CLAIMED = {
          "Exploration. For 26 LineEncoding tuples every (line advance, operation advance) pair in the stated ranges is written and read back (complete in the thorough tier, strided in the quick tier); generated multi-sequence programs vary every row field, sequence start mode, string form, optional file field and header version/format/address size. The emitted program is decoded twice: by gimli's reader and by the harness's own decoder/state machine, both must reproduce the generated rows; file entries must resolve through the emitted string sections. Both build profiles.",
          "Documented writer preconditions are respected by construction; line numbers < 2^63; mid-sequence set_address only re-states the current address. Trusts harness/src/linemodel.rs for the independent read-back.",
          "DESIGN.md §4 C13"),
+ 'C03': ("exhaustive enumeration form x configuration x payload x neighbour context + proptest random attribute lists; oracle = independent form model (encoder, expected decoded value, fixed-size table, normalisation class table); metamorphic skip-vs-read at every prefix split",
+         "Exploration. Every form (47 incl. GNU forms and DW_FORM_indirect) is enumerated under all 64 encoding configurations with boundary payloads and fixed/variable neighbours; generated abbreviation lists of 1-12 attributes over 60 attribute names exercise skip accumulation across fixed/variable boundaries, nested indirect forms, implicit constants, the legacy data4/data8 section-offset rule and unknown forms. Checked: decoded raw value, advance = encoded length per attribute, skip_attributes after reading i attributes for every i, advertised fixed size, value() payload preservation and class. Both build profiles.",
+         "Trusts the form model and .debug_info/.debug_abbrev assembler in harness/src/dieasm.rs (written from DWARF 5 section 7.5). Attribute values are generated inside their form's width.",
+         "DESIGN.md §4 C03"),
 }
 NOT_YET = "check not built yet in this session (machinery is being extended property by property; see DESIGN.md §4)"
 
